@@ -109,13 +109,19 @@ class TokenizerModel:
         self.appropriate_exprs: Dict[str, ast.AST] = {}
         self.tmp_script_tests: Dict[str, list] = {}
         self._check_emit_current_token()
+        self.inlined: Dict[str, FuncInfo] = {}
         for name, m in self.cls.methods.items():
             if self._is_state_method(m):
                 self.states.append(name)
+            else:
+                w = self._inline_wrapper(m)
+                if w is not None and self._is_state_method(w):
+                    self.inlined[name] = w
+                    self.states.append(name)
         if len(self.states) < 60:
             raise AnalysisError("only %d tokenizer state methods recognised" % len(self.states))
         for s in self.states:
-            self._extract(s, self.cls.methods[s])
+            self._extract(s, self.inlined.get(s) or self.cls.methods[s])
 
     # ------------------------------------------------------------ helpers
     def _is_state_method(self, m: FuncInfo) -> bool:
@@ -125,6 +131,43 @@ class TokenizerModel:
         if not rets or not all(isinstance(r.value, ast.Constant) and isinstance(r.value.value, bool) for r in rets):
             return False
         return m.name not in ("emitCurrentToken",)
+
+    def _inline_wrapper(self, m: FuncInfo) -> Optional[FuncInfo]:
+        """`def xState(self): return self.helper(e1, ..)` -> the helper's body with its parameters replaced by e1, ..
+        (the arguments are attribute reads of self -- states -- or constants, so substitution is sound)"""
+        if m.name.startswith("_") or len(m.params()) != 1:
+            return None
+        body = [s for s in m.node.body if not (isinstance(s, ast.Expr) and isinstance(s.value, ast.Constant))]
+        if not (len(body) == 1 and isinstance(body[0], ast.Return) and isinstance(body[0].value, ast.Call)):
+            return None
+        call = body[0].value
+        ch = attr_chain(call.func) or []
+        if len(ch) != 2 or ch[0] != m.params()[0] or call.keywords:
+            return None
+        h = self.cls.methods.get(ch[1])
+        if h is None or h is m or len(h.params()) != len(call.args) + 1:
+            return None
+        if not all(isinstance(a, ast.Constant) or (attr_chain(a) or [""])[0] == m.params()[0] for a in call.args):
+            return None
+        import copy
+        sub = dict(zip(h.params()[1:], call.args))
+        if any(isinstance(n, ast.Name) and isinstance(n.ctx, ast.Store) and n.id in sub for n in ast.walk(h.node)):
+            return None
+
+        class Sub(ast.NodeTransformer):
+            def visit_Name(self, node):
+                if isinstance(node.ctx, ast.Load) and node.id in sub:
+                    return copy.deepcopy(sub[node.id])
+                return node
+        node = copy.deepcopy(h.node)
+        node.name = m.name
+        node.args.args = node.args.args[:1]
+        node = Sub().visit(node)
+        ast.fix_missing_locations(node)
+        out = copy.copy(m)
+        out.node = node
+        self.idiom_hits["inlined-state-wrapper"] = self.idiom_hits.get("inlined-state-wrapper", 0) + 1
+        return out
 
     def _check_emit_current_token(self):
         f = self.repo.func(REL, "HTMLTokenizer.emitCurrentToken")
